@@ -14,6 +14,7 @@ import (
 	"io/ioutil"
 	"os"
 	"runtime"
+	"runtime/debug"
 	"strconv"
 	"time"
 
@@ -40,6 +41,9 @@ func main() {
 		os.Exit(2)
 	}
 	cmd := os.Args[1]
+	// unbounded recursion in the system under test must end in Go's fatal "stack overflow"
+	// within a second, not after growing a 1 GB stack
+	debug.SetMaxStack(16 << 20)
 	fs := flag.NewFlagSet(cmd, flag.ExitOnError)
 	prop := fs.String("prop", "", "property id")
 	tier := fs.String("tier", "quick", "quick|thorough")
